@@ -49,7 +49,35 @@ const TYPES: &str = "TYPE\n  Level : (Low, High) := Low;\nEND_TYPE\n";
 const USES_TYPE: &str = "FUNCTION_BLOCK UsesLevel\nVAR\n  lv : Level := Low;\n  n : INT;\nEND_VAR\n  n := 1;\nEND_FUNCTION_BLOCK\n";
 const USES_FB: &str = "PROGRAM Top\nVAR\n  inst : UsesLevel;\nEND_VAR\n  inst();\nEND_PROGRAM\n";
 
+/// The repository's own test resources (every .st / .iec file under compiler/resources/test that is UTF-8 text),
+/// each as a one-file set: real programs with constructs no generator of this harness writes down.
+fn resource_sets() -> Vec<FileSet> {
+    let mut out = vec![];
+    let dir = std::path::Path::new("/repo/compiler/resources/test");
+    let mut names: Vec<PathBuf> = std::fs::read_dir(dir).map(|d| d.filter_map(|e| e.ok()).map(|e| e.path()).collect()).unwrap_or_default();
+    names.sort();
+    for p in names {
+        let ext = p.extension().and_then(|e| e.to_str()).unwrap_or("");
+        if ext != "st" && ext != "iec" {
+            continue;
+        }
+        if let Ok(text) = std::fs::read_to_string(&p) {
+            let base = p.file_name().and_then(|n| n.to_str()).unwrap_or("resource.st").to_string();
+            let name: &'static str = Box::leak(format!("resource:{}", base).into_boxed_str());
+            let fname: &'static str = Box::leak(base.into_boxed_str());
+            out.push(FileSet { name, entries: vec![Entry::File(fname, text)] });
+        }
+    }
+    out
+}
+
 fn catalogue() -> Vec<FileSet> {
+    let mut all = catalogue_generated();
+    all.extend(resource_sets());
+    all
+}
+
+fn catalogue_generated() -> Vec<FileSet> {
     let docs = corpus::docs();
     let d0 = spell_lines(&docs[0].lx.v).text;
     let d1 = spell_lines(&docs[1].lx.v).text;
@@ -265,7 +293,7 @@ fn triple(r: &CliRun) -> String {
 
 pub fn run(ctx: &mut Ctx) {
     let sets = catalogue();
-    ctx.rule = "file-set catalogue (valid, interdependent, lexical/syntax/semantic faults, mixtures, empty, missing, dangling symlink, sub-directory, foreign extension, undecodable bytes) x every presentation (file list in every argument order; directory; every split into directory + listed files with the directory first or last) x {check, echo, tokenize} on the real binary; plus a sweep over the number of diagnostics (one file with k faults, k faulty files); distinct = distinct (set, presentation, command)".into();
+    ctx.rule = "file-set catalogue (valid, interdependent, lexical/syntax/semantic faults, mixtures, empty, missing, dangling symlink, sub-directory, foreign extension, undecodable bytes, and each text file of the repository's compiler/resources/test as a one-file set) x every presentation (file list in every argument order; directory; every split into directory + listed files with the directory first or last) x {check, echo, tokenize} on the real binary; plus a sweep over the number of diagnostics (one file with k faults, k faulty files); distinct = distinct (set, presentation, command)".into();
     ctx.assumptions.push("the binary is built from /repo without the verif feature; each run has its own TMPDIR; stderr is parsed after stripping ANSI colour codes".into());
     ctx.assumptions.push("`check dir` is compared with `check <files>` by verdict and multiset of codes (positions and order are not compared)".into());
     let scratch = Scratch::new("c13");
